@@ -55,6 +55,22 @@ pub fn queries() -> Vec<(Q, usize)> {
         (Q::Bool(vec![(m, t("b")), (m, Q::Bool(vec![(m, t("a")), (s, t("b"))], None))], None), 3),
         (Q::Bool(vec![(m, Q::Bool(vec![(m, t("a")), (s, t("b"))], None)), (m, t("a"))], None), 3),
         (Q::Bool(vec![(m, t("a")), (m, Q::Bool(vec![(s, t("a")), (s, t("b"))], None))], None), 3),
+        // boosts over const-score clauses, directly and through booleans / dis-max
+        (Q::Boost(Box::new(Q::Const(Box::new(t("a")), 1.5)), 2.0), 1),
+        (Q::Bool(vec![(s, Q::Boost(Box::new(Q::Const(Box::new(t("a")), 1.5)), 2.0)), (s, t("b"))], None), 2),
+        (Q::Boost(Box::new(Q::Bool(vec![(m, Q::Const(Box::new(t("a")), 3.0)), (s, t("b"))], None)), 0.5), 2),
+        (Q::Const(Box::new(Q::Boost(Box::new(t("a")), 2.0)), 1.5), 1),
+        (Q::DisMax(vec![Q::Boost(Box::new(Q::Const(Box::new(t("a")), 1.5)), 2.0), t("b")], 0.3), 2),
+        (Q::Boost(Box::new(Q::Boost(Box::new(Q::Const(Box::new(t("b")), 0.5)), 3.0)), 2.0), 1),
+        // constant-score leaves under a boolean next to a scoring clause (explain / collector consistency)
+        (Q::Bool(vec![(s, Q::Range("num".into(), std::ops::Bound::Included(V::U(1)), std::ops::Bound::Unbounded)), (s, t("b"))], None), 2),
+        (Q::Bool(vec![(s, Q::Range("num_idx".into(), std::ops::Bound::Included(V::U(1)), std::ops::Bound::Unbounded)), (s, t("b"))], None), 2),
+        (Q::Bool(vec![(s, Q::Exists("inum".into())), (s, t("b"))], None), 2),
+        (Q::Bool(vec![(s, Q::Bool(vec![(m, t("a"))], None)), (s, t("b"))], None), 2),
+        (Q::Bool(vec![(s, Q::Bool(vec![(m, t("a")), (m, t("b"))], None)), (s, t("b"))], None), 3),
+        (Q::Bool(vec![(s, Q::TermSet(vec!["a".into()])), (s, t("b"))], None), 2),
+        (Q::Bool(vec![(s, Q::Regex("a.*".into())), (s, t("b"))], None), 2),
+        (Q::Bool(vec![(s, Q::Fuzzy { term: "a".into(), dist: 0, transpose: false, prefix: false }), (s, t("b"))], None), 2),
         // no closed-form model (phrase-prefix, slop): explain / collector / segmentation consistency only
         (Q::Bool(vec![(s, t("a")), (s, Q::PhrasePrefix(vec!["a".into(), "b".into()]))], None), 2),
         (Q::Bool(vec![(s, t("b")), (s, Q::Phrase(vec!["b".into(), "a".into()], 1))], None), 2),
@@ -206,6 +222,66 @@ pub fn check_scores(b: &Built, q: &Q, clauses: usize) -> Result<BTreeMap<u64, f3
     Ok(by_id)
 }
 
+/// large-segment family: matches spread over several 4096-document windows of the buffered union, every
+/// window boundary crossed by documents matching one, the other and both disjuncts, lengths varying
+pub fn large_queries() -> Vec<(Q, usize)> {
+    let s = Occ::Should;
+    let m = Occ::Must;
+    vec![
+        (Q::DisMax(vec![t("a"), t("b")], 0.3), 2),
+        (Q::DisMax(vec![t("a"), t("b")], 1.0), 2),
+        (Q::DisMax(vec![t("a"), Q::Phrase(vec!["a".into(), "b".into()], 0)], 0.5), 2),
+        (Q::DisMax(vec![Q::Boost(Box::new(t("a")), 2.0), Q::Const(Box::new(t("b")), 0.7)], 0.25), 2),
+        (Q::Bool(vec![(s, t("a")), (s, t("b"))], None), 2),
+        (Q::Bool(vec![(s, t("a")), (s, t("b")), (s, t("c"))], Some(2)), 3),
+        (Q::Bool(vec![(m, t("c")), (s, Q::DisMax(vec![t("a"), t("b")], 0.3))], None), 3),
+        (Q::Boost(Box::new(Q::DisMax(vec![t("a"), t("b")], 0.3)), 2.0), 2),
+        (Q::Bool(vec![(s, Q::Const(Box::new(t("a")), 2.0)), (s, t("b"))], None), 2),
+    ]
+}
+
+pub fn large_docs(n: usize) -> Vec<ModelDoc> {
+    (0..n)
+        .map(|i| {
+            let mut toks: Vec<&str> = vec![];
+            if i % 2 == 0 || i % 4096 >= 4094 {
+                toks.push("a");
+            }
+            if i % 3 == 0 || i % 4096 <= 1 {
+                toks.push("b");
+            }
+            if i % 5 != 0 {
+                toks.push("c");
+            }
+            for _ in 0..(i % 4) {
+                toks.push("x");
+            }
+            if i % 7 == 0 {
+                toks.push("a");
+            }
+            ModelDoc::from_text(i as u64 + 1, &toks.join(" "))
+        })
+        .collect()
+}
+
+pub fn check_large_family(n: usize, st: &mut Stats) -> Vec<Violation> {
+    let docs = large_docs(n);
+    let mut out = vec![];
+    for layout in [Layout { segments: vec![n], deleted: vec![], merge: false }, Layout { segments: vec![n - 4100, 4100], deleted: vec![0, 4095, 4096, 4097, 8191], merge: false }] {
+        let b = build_index(&docs, &layout);
+        for (q, clauses) in large_queries() {
+            st.eval();
+            st.count("large_segment_queries");
+            match catch_unwind(AssertUnwindSafe(|| check_scores(&b, &q, clauses))) {
+                Ok(Ok(scores)) => st.count_n("large_segment_scores", scores.len() as u64),
+                Ok(Err((rule, what))) => out.push(Violation::new(&rule, format!("large-segment family ({n} documents, segments {:?}) query {}: {what}", layout.segments, show(&q)), json!({"kind":"large","n":n,"layout":layout,"query":q,"clauses":clauses}))),
+                Err(e) => out.push(Violation::new("score_panic", format!("large-segment family query {}: {} [{}]", show(&q), panic_message(e), last_panic()), json!({"kind":"large","n":n,"layout":layout,"query":q,"clauses":clauses}))),
+            }
+        }
+    }
+    out
+}
+
 fn tiny_docs(texts: &[String]) -> Vec<ModelDoc> {
     texts.iter().enumerate().map(|(i, t)| ModelDoc::from_text(i as u64 + 1, t)).collect()
 }
@@ -337,6 +413,16 @@ pub fn replay(case: &Value) -> Vec<Violation> {
         Err(_) => return vec![],
     };
     let clauses = case["clauses"].as_u64().unwrap_or(1) as usize;
+    if case["kind"] == "large" {
+        let n = case["n"].as_u64().unwrap_or(9000) as usize;
+        let layout: Layout = serde_json::from_value(case["layout"].clone()).unwrap();
+        let b = build_index(&large_docs(n), &layout);
+        return match catch_unwind(AssertUnwindSafe(|| check_scores(&b, &q, clauses))) {
+            Ok(Ok(_)) => vec![],
+            Ok(Err((rule, what))) => vec![Violation::new(&rule, what, case.clone())],
+            Err(e) => vec![Violation::new("score_panic", panic_message(e), case.clone())],
+        };
+    }
     let docs = tiny_docs(&texts);
     if case["kind"] == "segmentation" {
         return check_corpus(&texts, Some(&q)).into_iter().filter(|v| v.rule.starts_with("score_depends_on_segmentation")).collect();
@@ -447,12 +533,26 @@ pub fn run(ctx: &Ctx) -> Report {
         Err(e) => st2.violation(Violation::new("score_panic", format!("fieldnorm family: {}", panic_message(e)), json!({"kind":"fieldnorm_family","max_len":max_len}))),
     }
     st2.nontrivial(&("fieldnorm_family", max_len));
+    // large-segment family
+    let n_large = if thorough { 20_000 } else { 9_000 };
+    match catch_unwind(AssertUnwindSafe(|| check_large_family(n_large, &mut st2))) {
+        Ok(vs) => {
+            for v in vs {
+                st2.violation(v);
+            }
+        }
+        Err(e) => st2.errors.push(format!("large-segment family: {}", panic_message(e))),
+    }
+    st2.nontrivial(&("large_family", n_large));
     st.merge(st2);
     rep.set("exhaustive", done == corpora.len());
     rep.set("corpora", corpora.len() as u64);
     rep.set("queries", nq as u64);
     rep.set("fieldnorm_family_max_len", max_len as u64);
-    rep.set("rule", "every multiset of 1..2 (thorough 3) documents over texts of <= 3 tokens over {a,b} x every contiguous segmentation x every delete subset x 24 scoring queries (term, phrase, boolean should / must / must-not, boost, const-score, dis-max with tie breakers, nestings): every collected score vs an independent BM25 evaluation from the searcher statistics, explain().value(), TopDocs for several K, and (without deletes) bit-identical single-clause scores across all segmentations; field-length family: one document per length at / around every quantisation bucket boundary up to the bound. Non-trivial: corpus with a non-empty document; distinct by corpus");
+    rep.set("rule", "every multiset of 1..2 (thorough 3) documents over texts of <= 3 tokens over {a,b} x every contiguous segmentation x every delete subset x 24 scoring queries (term, phrase, boolean should / must / must-not, boost, const-score, dis-max with tie breakers, nestings): every collected score vs an independent BM25 evaluation from the searcher statistics, explain().value(), TopDocs for several K, and (without deletes) bit-identical single-clause scores across all segmentations; field-length family: one document per length at / around every quantisation bucket boundary up to the bound; large-segment family: 9000 (thorough 20000) documents in one segment and in two segments with deletes at the 4096-document window boundaries x 9 union / dis-max / minimum-should-match queries, every document's score, explain and TopDocs. Non-trivial: corpus with a non-empty document; distinct by corpus");
+    if st.counters.get("large_segment_scores").copied().unwrap_or(0) < 10_000 {
+        rep.machinery_errors.push("vacuous: large-segment family scored too few documents".into());
+    }
     if st.counters.get("fieldnorm_boundary_docs").copied().unwrap_or(0) < 50 {
         rep.machinery_errors.push("vacuous: field-length family too small".into());
     }
